@@ -136,6 +136,14 @@ def run(ctx):
     cmd = [h, "-keys", KEYS, "-sizes", sizes, "c37"] + args
     rc, out = vf.sh(cmd, timeout=1500, env=vf.GOENV)
     obs = [json.loads(l) for l in out.splitlines() if l.startswith('{"kind":"c37"')]
+    if (rc != 0 or not obs) and not ctx.replay:
+        # a harness that dies is reported below as a failure of the property; make sure it is not a transient
+        # environment problem first (port clash, key cache written by a parallel process): one retry
+        import time as _t
+        ctx.notes.append("harness exited rc=%s with %d observations; retried once. tail: %s" % (rc, len(obs), out[-600:]))
+        _t.sleep(3)
+        rc, out = vf.sh(cmd, timeout=1500, env=vf.GOENV)
+        obs = [json.loads(l) for l in out.splitlines() if l.startswith('{"kind":"c37"')]
     if ctx.thorough() and not ctx.replay and rc == 0:
         cells = ["None:1:0/%d:%d:%s/%d" % (kb, t, p, m) for p in SHA2 + SHA1 for m in (2, 3)
                  for kb in (1024, 2048, 3072, 4096) if SPEC_KEYS[p][0] <= kb <= SPEC_KEYS[p][1] for t in (0, 1)]
